@@ -653,10 +653,10 @@ UNITS = [
     U(id="parse6", props=["C19"], file="units/ipstr.c", entry="h_parse6", defines=["H_ENTRY=h_parse6"], enforce=[], plain=True,
       checked_by_assertions=["lrtr_ipv6_str_to_addr"], need_classes=["assertion"],
       kind="bounded: texts of at most 5 characters (quick) / 12 (thorough) without '.'", tier_defines={"quick": {"STRMAX": 5}, "thorough": {"STRMAX": 12}},
-      bound={"quick": 9, "thorough": 14}, native=None, timeout={"quick": 1500, "thorough": 7200}, allow_undefined=True, cbmc_flags=["--sat-solver", "cadical"], stubs=["sscanf", "sprintf"]),
+      bound={"quick": 9, "thorough": 14}, native={}, timeout={"quick": 1500, "thorough": 7200}, allow_undefined=True, cbmc_flags=["--sat-solver", "cadical"], stubs=["sscanf", "sprintf"]),
     U(id="format6", props=["C19"], file="units/ipstr.c", entry="h_format6", defines=["H_ENTRY=h_format6"], enforce=[], plain=True,
       checked_by_assertions=["lrtr_ipv6_addr_to_str"], need_classes=["assertion"], kind="complete",
-      bound=24, native=None, timeout=1800, allow_undefined=True, stubs=["sprintf"]),
+      bound=24, native={}, timeout=1800, allow_undefined=True, stubs=["sprintf"]),
     U(id="key_cmp", props=["C10"], file="units/spki_leaf.c", entry="h_key_cmp", defines=["H_ENTRY=h_key_cmp"], enforce=[], plain=True,
       checked_by_assertions=["key_entry_cmp"], need_classes=["assertion"], kind="complete", bound=93, native=None, allow_undefined=True),
     U(id="key_conv", props=["C10"], file="units/spki_leaf.c", entry="h_key_conv", defines=["H_ENTRY=h_key_conv"], enforce=[], plain=True,
@@ -680,7 +680,10 @@ UNITS = [
     U(id="bgpsec_align", props=["C11", "C12"], file="units/bgpsec_align.c", entry="h_align", enforce=[], plain=True,
       checked_by_assertions=["align_byte_sequence", "req_stream_size", "get_sig_seg_size", "write_stream"], need_classes=["assertion"],
       kind="bounded: 1 hop (quick) / 1..2 hops (thorough), signatures <= 3 bytes, NLRI <= 32 bits", bound=24, unwind_functions={"h_align": 130}, object_bits=11, mem_gb=40,
-      tier_defines={"quick": {"MAXHOPS": 1}, "thorough": {"MAXHOPS": 2}}, native=None, timeout={"quick": 1800, "thorough": 7200}, allow_undefined=True, stubs=["lrtr_calloc", "lrtr_malloc", "lrtr_free", "lrtr_dbg"]),
+      tier_defines={"quick": {"MAXHOPS": 1}, "thorough": {"MAXHOPS": 2}}, native={"skip": ["rtrlib/rtr_mgr.c", "rtrlib/lib/utils.c", "rtrlib/lib/alloc_utils.c", "rtrlib/lib/convert_byte_order.c", "rtrlib/lib/ip.c",
+                      "rtrlib/lib/ipv4.c", "rtrlib/lib/ipv6.c", "rtrlib/lib/log.c", "rtrlib/pfx/trie/trie.c", "rtrlib/pfx/trie/trie-pfx.c",
+                      "rtrlib/transport/transport.c", "rtrlib/transport/tcp/tcp_transport.c", "rtrlib/rtr/rtr.c", "rtrlib/rtr/packets.c",
+                      "rtrlib/bgpsec/bgpsec.c"]}, timeout={"quick": 1800, "thorough": 7200}, allow_undefined=True, stubs=["lrtr_calloc", "lrtr_malloc", "lrtr_free", "lrtr_dbg"]),
     U(id="pfx_add", props=["C02", "C09", "C16", "C18"], file="units/pfx_ops.c", entry="h_pfx_add", defines=["H_ENTRY=h_pfx_add"], enforce=["pfx_table_add"],
       replace=["trie_lookup_exact", "pfx_table_find_elem", "pfx_table_append_elem", "pfx_table_create_node", "trie_insert"],
       kind="complete", need_classes=["postcondition", "precondition"], native=None, stubs=["pthread_rwlock_*", "lrtr_free"]),
